@@ -187,6 +187,47 @@ def run(chk: Check):
     last = kctx.func.body[-1]
     chk.decide(okh and isinstance(last, ast.Raise), "K-PATH", "unseal-swallows-valueerror-only", kctx.func,
                "only ValueError (wrong passphrase / MAC) moves on to the next locator; without a match the function raises")
+    # a pair that does not open (wrong passphrase: MAC mismatch, bad padding / key data) must raise something this handler
+    # catches, otherwise the first non-matching pair ends the search and later pairs are never tried
+    BUILTIN_BASES = {"ValueError": ["Exception"], "TypeError": ["Exception"], "KeyError": ["LookupError", "Exception"], "IndexError": ["LookupError", "Exception"],
+                     "UnicodeDecodeError": ["UnicodeError", "ValueError", "Exception"], "UnicodeError": ["ValueError", "Exception"], "OSError": ["Exception"],
+                     "IOError": ["Exception"], "EOFError": ["Exception"], "NotImplementedError": ["RuntimeError", "Exception"], "RuntimeError": ["Exception"],
+                     "LookupError": ["Exception"], "ArithmeticError": ["Exception"], "Exception": []}
+
+    def bases_of(exc_node, ctx_):
+        """Names of the class of a raised / caught exception expression and of its ancestors."""
+        e = exc_node.func if isinstance(exc_node, ast.Call) else exc_node
+        nm = e.id if isinstance(e, ast.Name) else e.attr if isinstance(e, ast.Attribute) else None
+        if nm is None:
+            return None
+        r = chk.prog.resolve_name(nm, ctx_.mi) if isinstance(e, ast.Name) else None
+        if r and r[0] == "class":
+            out = []
+            for c in chk.prog.mro(r[1]):
+                out.append(c.name)
+                for b in chk.prog.external_bases(c):
+                    bn = b.split(".")[-1]
+                    out += [bn] + BUILTIN_BASES.get(bn, [])
+            return out
+        return [nm] + BUILTIN_BASES.get(nm, []) if nm in BUILTIN_BASES else [nm]
+
+    caught = []
+    for h in hs:
+        if h.type is not None:
+            for e in (h.type.elts if isinstance(h.type, ast.Tuple) else [h.type]):
+                caught += (bases_of(e, kctx) or [])[:1]
+    mac_raises = [o[1] for o in raises if o is cmpt[2]] or [o[1] for o in raises]
+    uncaught = []
+    for rn in mac_raises:
+        if rn.exc is None:
+            continue
+        chain = bases_of(rn.exc, ctx)
+        if chain is None or not (set(chain) & set(caught)):
+            uncaught.append((rn, chain))
+    chk.decide(not uncaught and bool(caught), "K-PATH", "mac-failure-moves-on-to-the-next-locator", uncaught[0][0] if uncaught else kctx.func,
+               f"the MAC failure raised by _decrypt_hmac is a {caught}: unseal_with_phrase tries the next pair" if not uncaught else
+               f"_decrypt_hmac raises {uncaught[0][1]} on a MAC mismatch, which the handler in unseal_with_phrase ({caught}) does not catch: "
+               "with several pairs only the first one's passphrase works")
     ko = func_outcomes(chk, kctx)
     rets = [o for o in ko if o[0] == "return"]
     okr = bool(rets) and all(o[3][0] == "tuple" and o[3][1][0][0] == "call" and o[3][1][0][1] == "ext:base64.b64decode" and "['key']" in S.show(o[3][1][0])
